@@ -52,6 +52,16 @@ func (*OutRes) ResourceDefinition() meta.ResourceDefinitionSpec {
 	return meta.ResourceDefinitionSpec{Type: "O", DefaultNamespace: "n1"}
 }
 
+type Out2Res struct{ Res }
+
+func newOut2(id, payload string) *Out2Res { return &Out2Res{Res: *newRes("n1", "O2", id, payload)} }
+
+func (r *Out2Res) DeepCopy() resource.Resource { return &Out2Res{Res: Res{md: r.md, spec: r.spec}} } //nolint:ireturn
+
+func (*Out2Res) ResourceDefinition() meta.ResourceDefinitionSpec {
+	return meta.ResourceDefinitionSpec{Type: "O2", DefaultNamespace: "n1"}
+}
+
 // ---- recording state: the totally ordered log of committed writes ---------------------------------------
 
 type wEntry struct {
@@ -266,6 +276,15 @@ func runGenericScenario(t *testing.T, sc gScenario) (out gOutcome) {
 					return state.WithLabelQuery(resource.LabelEqual("in", in.Metadata().ID()))
 				}),
 			}))
+		case "cleanup-combine":
+			sel := func(in *InRes) state.ListOption {
+				return state.WithLabelQuery(resource.LabelEqual("in", in.Metadata().ID()))
+			}
+
+			err = rt.RegisterController(cleanup.NewController(cleanup.Settings[*InRes]{
+				Name:    "cl",
+				Handler: cleanup.Combine(cleanup.HasNoOutputs[*OutRes](sel), cleanup.HasNoOutputs[*Out2Res](sel)),
+			}))
 		case "cleanup-hasno":
 			err = rt.RegisterController(cleanup.NewController(cleanup.Settings[*InRes]{
 				Name: "cl",
@@ -340,8 +359,25 @@ func runGenericScenario(t *testing.T, sc gScenario) (out gOutcome) {
 					continue
 				}
 
+				if strings.HasPrefix(sc.Config, "cleanup") && strings.HasPrefix(e.ID, "q") {
+					o := newOut2(e.ID, "dep")
+					o.Metadata().Labels().Set("in", e.Fin)
+					rs.Create(ectx, o) //nolint:errcheck
+
+					continue
+				}
+
 				if rs.Create(ectx, newIn(e.ID, fmt.Sprintf("p%d", nextPayload))) == nil && get("O", e.ID) != nil {
 					out.fl["recreate_while_output_exists"] = true
+				}
+			case "depdestroy":
+				typ := "O"
+				if strings.HasPrefix(e.ID, "q") {
+					typ = "O2"
+				}
+
+				if rs.Destroy(ectx, resource.NewMetadata("n1", typ, e.ID, resource.VersionUndefined)) == nil {
+					out.fl["dependent_destroyed"] = true
 				}
 			case "touch":
 				if r := get("T", e.ID); r != nil {
@@ -510,8 +546,14 @@ func checkOrdering(log []wEntry, sc gScenario, name string) (problems []string) 
 
 	for i, e := range log {
 		sh := ins
-		if e.Typ == "O" {
+		key := e.ID
+
+		if e.Typ != "T" {
 			sh = outs
+
+			if e.Typ != "O" {
+				key = e.Typ + "/" + e.ID
+			}
 		}
 
 		// pre-state checks
@@ -529,7 +571,11 @@ func checkOrdering(log []wEntry, sc gScenario, name string) (problems []string) 
 			// the controller releases its finalizer
 			if strings.HasPrefix(sc.Config, "cleanup") {
 				for id, o := range outs {
-					if v, _ := o.Metadata().Labels().Get("in"); v == e.ID && (sc.Config == "cleanup-hasno" || o.Metadata().Owner() == "") {
+					if strings.HasPrefix(id, "O2/") && sc.Config != "cleanup-combine" {
+						continue // only the combined handler looks at the second dependent kind
+					}
+
+					if v, _ := o.Metadata().Labels().Get("in"); v == e.ID && (sc.Config != "cleanup" || o.Metadata().Owner() == "") {
 						problems = append(problems, fmt.Sprintf("released-before-handler: write #%d removes the cleanup finalizer from input %s while dependent output %s still exists", i, e.ID, id))
 					}
 				}
@@ -540,9 +586,9 @@ func checkOrdering(log []wEntry, sc gScenario, name string) (problems []string) 
 
 		switch e.Op {
 		case "create", "update":
-			sh[e.ID] = e.After
+			sh[key] = e.After
 		case "destroy":
-			delete(sh, e.ID)
+			delete(sh, key)
 		}
 
 		// invariant on every prefix: an owned output implies its input exists and carries the finalizer
@@ -580,7 +626,7 @@ func checkOrdering(log []wEntry, sc gScenario, name string) (problems []string) 
 
 func genGenericScenario(r *rng) gScenario {
 	sc := gScenario{
-		Config:  pick(r, []string{"transform", "transform", "qtransform", "qtransform", "transform-ignoretd", "qtransform-until", "qtransform-while", "cleanup", "cleanup-hasno"}),
+		Config:  pick(r, []string{"transform", "transform", "qtransform", "qtransform", "transform-ignoretd", "qtransform-until", "qtransform-while", "cleanup", "cleanup-hasno", "cleanup-combine"}),
 		Destroy: r.chance(1, 2),
 		BusyNS:  pick(r, []int64{0, 0, 1e6, 200e6}),
 		Conc:    pick(r, []int{1, 1, 2}),
@@ -626,6 +672,25 @@ func genGenericScenario(r *rng) gScenario {
 
 		if strings.HasPrefix(sc.Config, "cleanup") && r.chance(1, 4) {
 			sc.Steps = append(sc.Steps, gEnv{Op: "create", ID: "o" + fmt.Sprint(r.intn(3)), Fin: id})
+		}
+
+		if sc.Config == "cleanup-combine" || sc.Config == "cleanup-hasno" {
+			switch z := r.intn(8); {
+			case z == 0:
+				sc.Steps = append(sc.Steps, gEnv{Op: "create", ID: "q" + fmt.Sprint(r.intn(3)), Fin: id})
+			case z < 3:
+				sc.Steps = append(sc.Steps, gEnv{Op: "depdestroy", ID: pick(r, []string{"o", "q"}) + fmt.Sprint(r.intn(3))})
+			case z == 3:
+				// both kinds of dependents, input torn down, dependents vanish in either order
+				o, q := "o"+fmt.Sprint(r.intn(3)), "q"+fmt.Sprint(r.intn(3))
+				first, second := o, q
+				if r.chance(1, 2) {
+					first, second = q, o
+				}
+
+				sc.Steps = append(sc.Steps, gEnv{Op: "create", ID: o, Fin: id}, gEnv{Op: "create", ID: q, Fin: id}, gEnv{Op: "quiesce"}, gEnv{Op: "teardown", ID: id},
+					gEnv{Op: "depdestroy", ID: first}, gEnv{Op: "quiesce"}, gEnv{Op: "depdestroy", ID: second})
+			}
 		}
 	}
 
@@ -750,7 +815,7 @@ func TestC06(t *testing.T) {
 }
 
 func TestC07(t *testing.T) {
-	runGenericProperty(t, "C07", "same runs as C06 plus cleanup controllers (RemoveOutputs, HasNoOutputs); a recording proxy around the CoreState yields the totally ordered log of committed writes; the monitor checks on every prefix: an owned output implies its input exists and carries the controller's finalizer, "+
+	runGenericProperty(t, "C07", "same runs as C06 plus cleanup controllers (RemoveOutputs, HasNoOutputs, Combine of two HasNoOutputs handlers with dependents vanishing in either order); a recording proxy around the CoreState yields the totally ordered log of committed writes; the monitor checks on every prefix: an owned output implies its input exists and carries the controller's finalizer, "+
 		"the controller removes its finalizer only when the output is gone, destroys outputs only when marked tearing down with no finalizers, and a cleanup controller releases its finalizer only when no dependent output exists; "+
 		"plus gated schedules: qtransform.QController.Reconcile is called directly on the real qruntime adapter with every runtime call held at a gate, arbitrary store operations of other parties (incl. ones the assumptions exclude) placed between any two calls, transform faults injected; "+
 		"the schedule, the kind of every runtime call, the reconcile result and the final store are replayed on GenCtl.q_step", gatedQPhase(t, "C07"))
@@ -763,11 +828,20 @@ func gatedQPhase(t *testing.T, prop string) func(rep *Report, dir string) {
 
 		var jl []any
 
+		var todo []qgCase
+
+		// corpus: the canonical life cycle with every environment operation placed in every gap
+		todo = append(todo, gapCorpus(prop == "C06")...)
+
 		for range tier(300, 6000) {
-			c := genGatedQ(r)
 			if prop == "C06" {
-				c = genQuietQ(r)
+				todo = append(todo, genQuietQ(r))
+			} else {
+				todo = append(todo, genGatedQ(r))
 			}
+		}
+
+		for _, c := range todo {
 
 			coq, flags, problem := runGatedQ(t, c)
 			if problem != "" {
@@ -793,4 +867,59 @@ func gatedQPhase(t *testing.T, prop string) func(rep *Report, dir string) {
 		rep.CoqFiles = append(rep.CoqFiles, f.finish(t, dir))
 		rep.CaseFiles = append(rep.CaseFiles, writeJSONL(t, dir, prop+"_gated_cases.jsonl", jl))
 	}
+}
+
+// gapCorpus: create; reconcile; teardown; reconcile — with one environment operation inserted at every position.
+func gapCorpus(quiet bool) []qgCase {
+	step := qgChoice{Kind: "step"}
+	base := []qgChoice{
+		{Kind: "env", Env: "in.create"}, step, step, step, step, {Kind: "restart"},
+		{Kind: "env", Env: "in.teardown"}, step, step, step, step,
+	}
+
+	envs := []qgChoice{
+		{Kind: "env", Env: "in.update"}, {Kind: "env", Env: "in.teardown"}, {Kind: "env", Env: "in.addfin", Fin: extFin},
+		{Kind: "env", Env: "in.remfin", Fin: extFin}, {Kind: "env", Env: "in.destroy"},
+		{Kind: "env", Env: "out.addfin", Fin: "g"}, {Kind: "env", Env: "out.remfin", Fin: "g"},
+	}
+
+	modes := []string{"plain"}
+
+	if !quiet {
+		envs = append(envs,
+			qgChoice{Kind: "env", Env: "in.remfin", Fin: tcName}, qgChoice{Kind: "env", Env: "out.teardown"}, qgChoice{Kind: "env", Env: "out.destroy"},
+			qgChoice{Kind: "env", Env: "out.create", Owner: tcName}, qgChoice{Kind: "env", Env: "out.create", Owner: "o2"}, qgChoice{Kind: "fault"},
+		)
+		modes = append(modes, "until", "while")
+	}
+
+	var out []qgCase
+
+	for _, m := range modes {
+		for pos := 1; pos <= len(base); pos++ {
+			for _, e := range envs {
+				sched := append([]qgChoice(nil), base[:pos]...)
+				sched = append(sched, e)
+				sched = append(sched, base[pos:]...)
+
+				c := qgCase{Mode: m, Sched: sched, Quiet: quiet}
+
+				if quiet {
+					for range 6 {
+						c.Sched = append(c.Sched, step)
+					}
+
+					c.Sched = append(c.Sched, qgChoice{Kind: "restart"})
+
+					for range 6 {
+						c.Sched = append(c.Sched, step)
+					}
+				}
+
+				out = append(out, c)
+			}
+		}
+	}
+
+	return out
 }
